@@ -73,3 +73,53 @@ Proof.
   apply allocate_ext; try reflexivity; simpl; apply E; intros m;
     unfold is_cur, is_prio, is_cand; simpl; destruct (memN (mpeer m) (blacklist i)); simpl; auto; discriminate.
 Qed.
+
+(* ---- the Go map's iteration order can change WHICH healthy holders survive a truncation, nothing else ---- *)
+From Coq Require Import Permutation.
+
+Definition same_outcome (a b : res) : Prop :=
+  match a, b with
+  | Ok l1, Ok l2 => length l1 = length l2
+  | ErrBadFactors, ErrBadFactors => True
+  | ErrNotEnough, ErrNotEnough => True
+  | _, _ => False
+  end.
+
+Lemma alloc_order_outcome_l now i o1 o2 :
+  (forall xs, Permutation (o1 xs) xs) -> (forall xs, Permutation (o2 xs) xs) ->
+  same_outcome (allocate now i o1) (allocate now i o2).
+Proof.
+  intros H1 H2. unfold allocate, valid_current. cbv zeta.
+  set (xs := map mpeer (filter (is_cur i) (latest_valid now (metrics i)))).
+  assert (L1 := Permutation_length (H1 xs)). assert (L2 := Permutation_length (H2 xs)).
+  rewrite L1, L2.
+  destruct (rmin i + rmax i =? 0); [exact I|].
+  destruct ((rmin i <? 0) && (rmax i <? 0)); [reflexivity|].
+  destruct (rmax i - Z.of_nat (length xs) <? 0).
+  { simpl. rewrite !firstn_length, L1, L2. reflexivity. }
+  destruct (rmin i - Z.of_nat (length xs) <=? 0); [reflexivity|].
+  destruct (Z.of_nat _ <? _); [exact I|].
+  destruct (Z.of_nat _ <? _); [exact I|].
+  simpl. rewrite !app_length, L1, L2. reflexivity.
+Qed.
+
+(* when nothing has to be truncated (healthy holders <= max) the two answers are the same set of peers *)
+Lemma alloc_order_perm_l now i o1 o2 l1 l2 :
+  (forall xs, Permutation (o1 xs) xs) -> (forall xs, Permutation (o2 xs) xs) ->
+  ncur_of now i <= rmax i ->
+  allocate now i o1 = Ok l1 -> allocate now i o2 = Ok l2 -> Permutation l1 l2.
+Proof.
+  intros H1 H2 Hle. unfold allocate, valid_current, ncur_of in *. cbv zeta.
+  set (xs := map mpeer (filter (is_cur i) (latest_valid now (metrics i)))).
+  assert (Lx : length xs = length (filter (is_cur i) (latest_valid now (metrics i)))) by (unfold xs; apply map_length).
+  assert (L1 := Permutation_length (H1 xs)). assert (L2 := Permutation_length (H2 xs)).
+  rewrite L1, L2.
+  destruct (rmin i + rmax i =? 0); [discriminate|].
+  destruct ((rmin i <? 0) && (rmax i <? 0)); [intros E1 E2; inversion E1; inversion E2; constructor|].
+  destruct (rmax i - Z.of_nat (length xs) <? 0) eqn:W; [apply Z.ltb_lt in W; lia|].
+  destruct (rmin i - Z.of_nat (length xs) <=? 0); [intros E1 E2; inversion E1; inversion E2; subst; reflexivity|].
+  destruct (Z.of_nat _ <? _); [discriminate|].
+  destruct (Z.of_nat _ <? _); [discriminate|].
+  intros E1 E2; inversion E1; inversion E2; subst.
+  apply Permutation_app_tail. rewrite (H1 xs), (H2 xs). reflexivity.
+Qed.
